@@ -7,7 +7,8 @@ import XPathV.Generated.Constants
 `Predicate` closure is the `AxisInfo` it captured.  A nil `query` is `Plan.nil` (the builder yields
 one for the `namespace` axis; using it at run time is a nil dereference — see `Engine`).
 
-`build` threads `flags`, `props`, `parseDepth` and `firstInput` like `builder` does.  `firstInput`
+`build` threads `flags`, `props`, `parseDepth`, `firstInput` and `predInput` like `builder` does
+(`predInput` is set by `processFilter` around the condition and read by `positionInput`).  `firstInput`
 is kept as a *value*; the merge rewrite of `processFilter` mutates `firstInput.Input` in Go, which is
 the filter's own input exactly when the filter's input node is an axis node — the only case the
 model rewrites (other cases — `firstInput` is a filter/merge/group, or stale — hit no arm of the Go
@@ -170,7 +171,13 @@ inductive BErr
 structure BState where
   depth : Nat := 0
   firstInput : Option Plan := none
+  /-- `b.predInput`: while the condition of a predicate is being built, the step that the predicate
+  filters (what `position()`/`last()` count in); `none` = nil -/
+  predInput : Option Plan := none
   deriving Repr, Inhabited
+
+/-- `b.positionInput()`: inside a predicate the step being filtered, elsewhere the step built last -/
+def BState.positionInput (st : BState) : Plan := (st.predInput <|> st.firstInput).getD .nil
 
 structure BOut where
   q : Plan
@@ -296,7 +303,7 @@ def build : Ast → Flags → BState → Except BErr BOut
           | .constStr p => if regexOk p then pure () else .error .badRegexp
           | .constNum _ => .error .nilDeref   -- `q.Val.(string)` fails: recovered type-assertion panic
           | _ => pure ()
-        let fi := if name == "last" || name == "position" then (ao.st.firstInput.getD .nil) else .nil
+        let fi := if name == "last" || name == "position" then ao.st.positionInput else .nil
         let props := if name == "last" then { props0 with hasLast := true }
                      else if name == "position" then { props0 with hasPosition := true } else props0
         let q := if name == "reverse" then Plan.transform name (argsQ.argList.getD 0 .nil) else Plan.func name fi argsQ
@@ -331,7 +338,9 @@ def build : Ast → Flags → BState → Except BErr BOut
     let inFlags : Flags := { fl with filter := true, smartDesc := fl.smartDesc && smartDescThroughFilter }
     let io ← build inp inFlags st
     let firstInput := io.st.firstInput
-    let co ← build cond fl io.st
+    -- `outerPredInput := b.predInput; b.predInput = firstInput; …; b.predInput = outerPredInput`
+    let co0 ← build cond fl ⟨io.st.depth, io.st.firstInput, firstInput⟩
+    let co : BOut := ⟨co0.q, co0.props, ⟨co0.st.depth, co0.st.firstInput, io.st.predInput⟩⟩
     let condVT ← match co.q.valueType with
       | some t => pure t
       | none => .error .nilDeref
